@@ -74,13 +74,30 @@ def witness_scens(ctx, producers=("simple", "erroring"), repeat=6):
     return out
 
 
-def run_driver(ctx, scens, tag="t"):
+UDP = HARNESS + [os.path.join(vlib.HARNESS, "root", "abaco_udp_test.go")]
+
+
+def run_driver(ctx, scens, tag="t", udp=False):
     sp = ctx.path("scen_%s.json" % tag)
     json.dump(scens, open(sp, "w"))
     tp = ctx.path("trace_%s.ndjson" % tag)
     rc, out = vlib.go_test(ctx, "", HARNESS, "TestVerifLifecycle$", env={"VERIF_SCEN": sp, "VERIF_OUT": tp}, timeout=2400)
     if rc != 0:
         raise vlib.MachineryError("lifecycle driver failed:\n" + out[-4000:])
+    if udp:
+        # the real Abaco source over localhost UDP (no gates): failed start without data, start with data, stop, restart
+        tu = ctx.path("trace_%s_udp.ndjson" % tag)
+        rc, out = vlib.go_test(ctx, "", UDP, "TestVerifAbacoUDP$", env={"VERIF_OUT": tu}, timeout=600)
+        if rc != 0:
+            raise vlib.MachineryError("abaco udp driver failed:\n" + out[-3000:])
+        ev = vlib.read_ndjson(tp)
+        nscen = max([e["scen"] for e in ev if e["ev"] == "Begin"] or [0])
+        extra = vlib.read_ndjson(tu)
+        ev.append({"ev": "Begin", "scen": nscen + 1, "origin": "abaco-udp-localhost", "producer": "abaco-udp"})
+        for e in extra:
+            e["scen"] = nscen + 1
+            ev.append(e)
+        vlib.write_ndjson(tp, ev)
     return tp
 
 
@@ -130,12 +147,15 @@ def judge(ctx, events, viols, scens, prefixes, tlc_out):
             sig["where"] = sorted({norm_where(h["where"]) for h in e.get("hangs", [])})
         elif e["ev"] == "Step":
             sig["action"] = e["a"]
+        elif e["ev"] == "UDPStep":
+            sig["step"] = e["step"]
+            sig["err"] = (e.get("err") or "")[:50]
         sc = scens[s["id"] - 1] if s["id"] - 1 < len(scens) else None
         vlib.report_violation(ctx, sig, sc)
 
 
-def validate(ctx, scens, prefixes, tag="t"):
-    tp = run_driver(ctx, scens, tag)
+def validate(ctx, scens, prefixes, tag="t", udp=False):
+    tp = run_driver(ctx, scens, tag, udp=udp)
     viols, done = vlib.validate_trace(ctx, "LifecycleTrace", "LifecycleTrace.cfg", tp, heap="8g", timeout=1800)
     events = vlib.read_ndjson(tp)
     judge(ctx, events, viols, scens, prefixes, ctx.last_tlc_out if hasattr(ctx, "last_tlc_out") else "")
